@@ -510,3 +510,134 @@ pub fn g_anybytes(max: usize) -> BS<Vec<u8>> {
     ]
     .boxed()
 }
+
+// --------------------------------------------------------------------------
+// byte-driven decoding (coverage-guided mode)
+
+/// Cursor over a libFuzzer input; reads zeros once exhausted.
+pub struct Cur<'a> {
+    pub d: &'a [u8],
+    pub i: usize,
+}
+
+impl<'a> Cur<'a> {
+    pub fn new(d: &'a [u8]) -> Cur<'a> {
+        Cur { d, i: 0 }
+    }
+    pub fn u8(&mut self) -> u8 {
+        let b = self.d.get(self.i).copied().unwrap_or(0);
+        self.i += 1;
+        b
+    }
+    pub fn u64(&mut self) -> u64 {
+        let mut x = 0u64;
+        for k in 0..8 {
+            x |= (self.u8() as u64) << (8 * k);
+        }
+        x
+    }
+    pub fn exhausted(&self) -> bool {
+        self.i >= self.d.len()
+    }
+    fn ch(&mut self) -> char {
+        let b = self.u8();
+        let u = match b {
+            0..=0x7F => b as u32,
+            0x80..=0xBF => 0x80 + (((b & 0x3F) as u32) << 5) + (self.u8() as u32 & 0x1F),
+            0xC0..=0xEF => (((b & 0x2F) as u32) << 8) + self.u8() as u32 + 0x800,
+            _ => 0x10000 + (((b & 0x0F) as u32) << 16) + ((self.u8() as u32) << 8) + self.u8() as u32,
+        };
+        char::from_u32(u).unwrap_or('\u{FFFD}')
+    }
+    fn text(&mut self, max: usize) -> String {
+        let n = self.u8() as usize % (max + 1);
+        (0..n).map(|_| self.ch()).collect()
+    }
+    fn ident(&mut self, rules: IdentRules) -> String {
+        let alphabet: Vec<char> = ASCII_LETTERS.chars().chain(SPECIAL_INITIAL.chars()).chain(DIGITS.chars()).chain(SPECIAL_SUBSEQUENT.chars()).chain("λé中".chars()).collect();
+        let n = 1 + self.u8() as usize % 10;
+        let raw: String = (0..n).map(|_| alphabet[self.u8() as usize % alphabet.len()]).collect();
+        let fixed = fix_ident(raw, rules);
+        if crate::reader::is_identifier(&fixed) && fix_ident(fixed.clone(), rules) == fixed {
+            fixed
+        } else {
+            "a".to_string()
+        }
+    }
+}
+
+/// Decode a model value from bytes: one tag byte per node, payload bytes after
+/// it, so that a byte mutation changes one node and leaves the rest in place.
+/// Every value of the decoder lies in the domain described by `cfg` (names are
+/// plain identifiers under `cfg.ident`, floats are finite, characters are
+/// scalar values).
+pub fn decode_mv(c: &mut Cur, cfg: ValueCfg, depth: u32) -> MV {
+    let t = c.u8();
+    let hi = t >> 4;
+    let kind = if depth == 0 || c.exhausted() { t % 12 } else { t % 16 };
+    match kind {
+        0 => MV::Nil,
+        1 => MV::Null,
+        2 => MV::Bool(hi & 1 == 1),
+        3 => MV::int(c.u8() as i8 as i128),
+        4 => {
+            let x = c.u64();
+            match hi % 4 {
+                0 => MV::U(x),
+                1 => MV::int(x as i64 as i128),
+                2 => MV::int([i64::MIN as i128, i64::MAX as i128, u64::MAX as i128, (1i128 << 53) + 1, -(1i128 << 63) + 1][(x % 5) as usize]),
+                _ => MV::int((x >> (x % 64)) as i128),
+            }
+        }
+        5 => {
+            let x = f64::from_bits(c.u64());
+            MV::f(if x.is_finite() { x } else { f64::from_bits(x.to_bits() & !(1u64 << 62)) })
+        }
+        6 => {
+            // short decimal: mantissa * 10^exp
+            let m = c.u8() as i8 as f64 + (c.u8() as f64) / 256.0;
+            let e = (c.u8() as i8 as i32) * if hi & 1 == 1 { 3 } else { 1 };
+            let x = format!("{}e{}", m, e).parse::<f64>().unwrap_or(0.0);
+            MV::f(if x.is_finite() { x } else { 1.5 })
+        }
+        7 => MV::Char(c.ch() as u32),
+        8 => MV::Str(c.text(cfg.str_max.max(4))),
+        9 => MV::Sym(c.ident(cfg.ident)),
+        10 => {
+            if cfg.keywords {
+                let mut r = cfg.ident;
+                r.no_nil = false;
+                r.no_t = false;
+                MV::Kw(c.ident(r))
+            } else {
+                MV::Sym(c.ident(cfg.ident))
+            }
+        }
+        11 => {
+            if cfg.bytes {
+                let n = c.u8() as usize % 12;
+                MV::Bytes((0..n).map(|_| c.u8()).collect())
+            } else {
+                MV::Null
+            }
+        }
+        12 | 13 => {
+            let n = hi as usize % (cfg.branch as usize + 1);
+            let xs: Vec<MV> = (0..n).map(|_| decode_mv(c, cfg, depth - 1)).collect();
+            if kind == 13 && !xs.is_empty() {
+                let tail = decode_mv(c, cfg, 0);
+                MV::List(xs, Box::new(non_null(tail))).normalize()
+            } else {
+                MV::list(xs)
+            }
+        }
+        14 => {
+            let n = hi as usize % (cfg.branch as usize + 1);
+            MV::Vec((0..n).map(|_| decode_mv(c, cfg, depth - 1)).collect())
+        }
+        _ => {
+            let head = ["quote", "quasiquote", "unquote", "unquote-splicing"][hi as usize % 4];
+            MV::list(vec![MV::sym(head), decode_mv(c, cfg, depth - 1)])
+        }
+    }
+}
